@@ -29,12 +29,14 @@ where
     }
 
     fn map2_to_curve(p1: &PtT::Base, p2: &PtT::Base) -> PtT {
-        let mut p = {
-            let mut tmp = PtT::osswu_map(p1);
-            tmp.add_assign(&PtT::osswu_map(p2));
-            tmp
-        };
+        // The addition must happen on the target curve: the group-law formulas
+        // (in particular doubling, reached when both SSWU images coincide) assume a = 0,
+        // which does not hold on the isogenous curve.
+        let mut p = PtT::osswu_map(p1);
         p.isogeny_map();
+        let mut p2 = PtT::osswu_map(p2);
+        p2.isogeny_map();
+        p.add_assign(&p2);
         p.clear_h();
         debug_assert!(p.into_affine().in_subgroup());
         p
